@@ -37,20 +37,20 @@ def run(ctx):
 
     # E4 + E3 --------------------------------------------------------------------------------
     rng = random.Random(ctx.seed)
-    nq, npool = (60, 60) if thorough else (10, 8)
+    nq, npool = (200, 200) if thorough else (10, 8)
     progs_q = [fc.gen.MC['three'], fc.gen.MC['exc']] + [fc.gen.MC['wany1']] * 3 + [fc.gen.random_program(rng, 'q') for _ in range(nq)]
     progs_p = [fc.gen.random_program(rng, 'pool') for _ in range(npool)]
     ctx.sample({'programs': progs_q[5:7] + progs_p[:3]})
     tr = fc.run_and_validate(ctx, exe, progs_p + progs_q, WHAT,
                              'random programs: real ThreadPool TaskSet NewThreadInvoker | manual queue ImmediateInvoker',
-                             n=8 if thorough else 3, seed=ctx.seed, pct=3, spurious=True, fixed=fixed)[0]
+                             n=10 if thorough else 3, seed=ctx.seed, pct=3, spurious=True, fixed=fixed)[0]
     if tr:
         ctx.sample_trace(tr, 10, skip=30)
     if thorough:
         san = fc.build(ctx, sanitize=True)
         rng2 = random.Random(ctx.seed + 7)
-        fc.run_and_validate(ctx, san, [fc.gen.random_program(rng2, 'q') for _ in range(40)], WHAT,
+        fc.run_and_validate(ctx, san, [fc.gen.random_program(rng2, 'q') for _ in range(100)], WHAT,
                             'sanitised build, manual queue', n=6, seed=ctx.seed + 2, pct=3, fixed=fixed)
-        fc.run_and_validate(ctx, san, [fc.gen.random_program(rng2, 'pool') for _ in range(40)], WHAT,
+        fc.run_and_validate(ctx, san, [fc.gen.random_program(rng2, 'pool') for _ in range(100)], WHAT,
                             'sanitised build, real pool', n=5, seed=ctx.seed + 3, pct=3, fixed=fixed)
     ctx.assumptions += fc.ASSUME
